@@ -342,7 +342,7 @@ def shards(tier: str) -> list:
     combos = [(p, 0) for p in range(9)] + [(0, 1), (6, 1)]
     for p, cm in combos:
         for ev in _enabled_first(p, cm):
-            out.append({"fn": fn, "env": {"PREFIX": p, "CMODE": cm, "SH0": ev}, "cond_timeout": 300 if tier == "quick" else 1800, "path_timeout": 60,
+            out.append({"fn": fn, "env": {"PREFIX": p, "CMODE": cm, "SH0": ev}, "cond_timeout": 600 if tier == "quick" else 2400, "path_timeout": 60,
                         "desc": f"history '{PREFIX_NAMES[p]}' (connect {'immediate' if cm == 0 else 'pending'}), first event {NAMES[ev]}, then {2 if tier == 'quick' else 3} symbolic events"})
     return out
 
